@@ -179,4 +179,97 @@ example : exP.litsNonempty = true ∧ exP.litsNormal = true ∧ exQ.litsNormal =
     (exP.unapplyUri none [47, 97, 47, 98]).isSome = true ∧ (exQ.unapplyUri none [47, 97, 47, 98]).isSome = true ∧
     areAmbiguous exP exQ = true := by decide
 
+/-! ## What `RoutePattern::parse` guarantees (parser state machine ↔ segment model) -/
+
+/-- Every accepted pattern has non-empty `/`-free literals, non-empty `/`- and `:`-free pairwise distinct
+parameter names, and (when relative and scheme-less) a first literal that the URI parser cannot read as a scheme.
+So the structural hypotheses of the theorems above hold for every pattern the server can be given. -/
+theorem C18_parse_struct (s : Bytes) (p : Pat) (h : parsePattern s = .ok p) : p.structOk = true :=
+  parsePattern_structOk s p h
+
+theorem structOk_litsNonempty (p : Pat) (h : p.structOk = true) : p.litsNonempty = true := by
+  simp only [Pat.structOk, Bool.and_eq_true, List.all_eq_true] at h
+  simp only [Pat.litsNonempty, List.all_eq_true]
+  intro s hs
+  have := h.1.1 s hs
+  cases s <;> simp_all [Seg.structOk, Seg.litNonempty]
+
+theorem C18_parse_lits_nonempty (s : Bytes) (p : Pat) (h : parsePattern s = .ok p) : p.litsNonempty = true :=
+  structOk_litsNonempty p (parsePattern_structOk s p h)
+
+/-- Parsed patterns with percent-normal names and at least one segment are `rtWf`. -/
+theorem C18_parse_rtWf (s : Bytes) (p : Pat) (h : parsePattern s = .ok p) (hne : p.segs ≠ [])
+    (hn : ∀ n ∈ p.params, pctNormal n = true ∧ isStr n = true) : p.rtWf = true := by
+  have hs := parsePattern_structOk s p h
+  simp only [Pat.structOk, Bool.and_eq_true, List.all_eq_true] at hs
+  simp only [Pat.rtWf, Bool.and_eq_true, List.all_eq_true, Bool.not_eq_eq_eq_not, Bool.not_true]
+  refine ⟨⟨by simpa using hne, ?_⟩, hs.1.2⟩
+  intro sg hsg
+  have h1 := hs.1.1 sg hsg
+  cases sg with
+  | lit l => simp_all [Seg.structOk, Seg.rtOk]
+  | param n =>
+    have hin : n ∈ p.params := by
+      simp only [Pat.params, List.mem_filterMap]
+      exact ⟨.param n, hsg, rfl⟩
+    simp [Seg.rtOk, hn n hin]
+
+example : (parsePattern [115, 58, 47, 97, 47, 58, 105, 100]).toOption =
+    some ⟨some [115], true, [.lit [97], .param [105, 100]]⟩ := by decide
+example : (parsePattern [47, 58, 120, 47, 58, 120]).toOption = none ∧ (parsePattern [47, 97, 47]).toOption = none ∧
+    (parsePattern []).toOption = none ∧ (parsePattern [47, 47]).toOption = none := by decide
+
+/-! ## A server that accepted its routes resolves every URI to at most one agent definition -/
+
+/-- Full statement: if `PlaneBuilder::build` accepts the routes then no URI is matched by two of them.
+**False of the current code** (F12). -/
+def C18_route_unique : Prop :=
+  ∀ (ps : List Pat), buildOk ps = true → (∀ p ∈ ps, p.litsNonempty = true) →
+    ∀ (sch : Option Bytes) (path : Bytes) (i j : Nat) (p q : Pat), ps[i]? = some p → ps[j]? = some q → i ≠ j →
+      ∀ r, p.unapplyUri sch path = some r → q.unapplyUri sch path = none
+
+theorem C18_route_unique_fails : ¬ C18_route_unique := by
+  intro h
+  have := h [⟨none, true, [.lit [97, 37, 54, 50]]⟩, ⟨none, true, [.lit [97, 98]]⟩] (by decide) (by decide)
+    none [47, 97, 98] 0 1 _ _ rfl rfl (by decide) [] (by decide)
+  exact absurd this (by decide)
+
+/-- What holds today: with escape-free literals, an accepted route table matches every URI with at most one
+pattern, so `Routes::find_route` (first match) is *the* match. -/
+theorem C18_route_unique_partial (ps : List Pat) (hb : buildOk ps = true)
+    (hwf : ∀ p ∈ ps, p.litsNonempty = true ∧ p.litsNormal = true) (sch : Option Bytes) (path : Bytes)
+    (i j : Nat) (p q : Pat) (hi : ps[i]? = some p) (hj : ps[j]? = some q) (hij : i ≠ j) (r : KV)
+    (hp : p.unapplyUri sch path = some r) : q.unapplyUri sch path = none := by
+  have hpw := List.pairwise_iff_getElem.mp (buildOk_pairwise ps hb)
+  obtain ⟨hil, hpi⟩ := List.getElem?_eq_some_iff.mp hi
+  obtain ⟨hjl, hqj⟩ := List.getElem?_eq_some_iff.mp hj
+  have hpm : p ∈ ps := hpi ▸ List.getElem_mem hil
+  have hqm : q ∈ ps := hqj ▸ List.getElem_mem hjl
+  cases hq : q.unapplyUri sch path with
+  | none => rfl
+  | some r2 =>
+    exfalso
+    rcases Nat.lt_or_gt_of_ne hij with hlt | hgt
+    · have h1 := hpw i j hil hjl hlt
+      rw [hpi, hqj] at h1
+      have h2 := C18_ambiguity_complete_partial p q sch path r r2 (hwf p hpm).1 (hwf q hqm).1 (hwf p hpm).2
+        (hwf q hqm).2 hp hq
+      simp [h1] at h2
+    · have h1 := hpw j i hjl hil hgt
+      rw [hpi, hqj] at h1
+      have h2 := C18_ambiguity_complete_partial q p sch path r2 r (hwf q hqm).1 (hwf p hpm).1 (hwf q hqm).2
+        (hwf p hpm).2 hq hp
+      simp [h1] at h2
+
+theorem C18_find_route_is_the_match_partial (ps : List Pat) (hb : buildOk ps = true)
+    (hwf : ∀ p ∈ ps, p.litsNonempty = true ∧ p.litsNormal = true) (sch : Option Bytes) (path : Bytes)
+    (i : Nat) (kv : KV) (h : findRoute ps sch path = some (i, kv)) :
+    ∀ j q, ps[j]? = some q → j ≠ i → q.unapplyUri sch path = none := by
+  obtain ⟨p, hp, hm⟩ := findRoute_some ps sch path i kv h
+  intro j q hq hji
+  exact C18_route_unique_partial ps hb hwf sch path i j p q hp hq (fun e => hji e.symm) kv hm
+
+example : buildOk [exP, exQ] = false ∧ buildOk [exP, ⟨none, true, [.lit [97], .lit [99]]⟩] = true ∧
+    findRoute [exP, ⟨none, true, [.lit [97], .lit [99]]⟩] none [47, 97, 47, 99] = some (1, []) := by decide
+
 end SwimVerif.Route
